@@ -438,6 +438,14 @@ def function_level(ctx, worlds):
             ctx.sample({'parent': str(p), 'behemoth_order': b, 'n_per_utility': o['n_per'], 'by_pair_tables': o['thin_pairs'],
                         'thinned_genes': o['thin_genes'], 'selected_in_order': o['selected'],
                         'stats': {k: o['stats'][k] for k in ('filled', 'unfilled', 'n_desperate')}}, limit=3)
+        if not hasattr(ctx, 'c12_observed'):
+            ctx.c12_observed = []                          # shown by --replay (implementation | model | predicate)
+        if len(ctx.c12_observed) < 12:
+            ctx.c12_observed.append({
+                'parent': str(p), 'global_pair_order': b, 'n_per_utility': o.get('n_per'),
+                'implementation': o.get('selected', o.get('msg')),
+                'model_replay': ('accepted' if rep and rep[0][0] == 0 else rep[0] if rep else None),
+                'spec_c12': (spec[1][0] if spec and spec[0] == 0 else None)})
         report(ctx, {'kind': 'function', 'world': w, 'parent': p, 'behemoth': b, 'observed': o,
                      'model': {'thin': th, 'replay': rep, 'spec': spec}}, corr, prop)
 
@@ -590,6 +598,13 @@ def stage_level(ctx, worlds, n_configs):
         ctx.dist('parents_with_pairs', n_branching)
         ctx.dist('table_density', world['density'])
         ctx.dist('override', world['override'] is not None)
+        if not hasattr(ctx, 'c12_observed'):
+            ctx.c12_observed = []
+        for t in tables:
+            if len(ctx.c12_observed) < 12:
+                ctx.c12_observed.append({'config': t['config'], 'implementation': t.get('table', t.get('msg')),
+                                         'model_and_predicate': 'agree' if not (pr['corr'] or pr['prop']) else
+                                         {'correspondence': pr['corr'][:3], 'property': pr['prop'][:3]}})
         report(ctx, {'kind': 'stage', 'world': world, 'tables': tables}, pr['corr'], pr['prop'])
 
 
@@ -649,7 +664,7 @@ def run(ctx):
         'gene names are unique in the reference and in the query; the tree is a valid strict tree',
         'the tie order of np.argsort is not modelled: the chosen sequence is an input of the model',
     ]
-    nf = ctx.n(160, 1600)
+    nf = ctx.n(160, 2400)
     done = 0
     while done < nf:
         m = min(100, nf - done)
@@ -673,6 +688,7 @@ def replay(ctx, rec):
     if world is None:
         print(json.dumps(rec, indent=1)[:4000])
         return 0
+    shown = json.dumps(world, default=str)[:3000]
     if world.get('override') is not None:
         world['override'] = {(None if k == 'None' else tuple(k)): v for k, v in world['override']}
     d = ctx.scratch / 'replay'
@@ -683,7 +699,9 @@ def replay(ctx, rec):
         stage_level(ctx, [(world, tree, ref)], n_configs=12)
     else:
         function_level(ctx, [(world, tree, ref)])
-    print('INPUT', json.dumps(rec.get('world'), default=str)[:3000])
+    print('INPUT', shown)
+    for o in getattr(ctx, 'c12_observed', [])[:12]:
+        print('OBSERVED', json.dumps(o, default=str)[:600])
     for what, p, no_input in ctx.violations[before:]:
         print('RESULT', what)
     if len(ctx.violations) == before and not ctx.known_hits:
